@@ -9,6 +9,17 @@ package spine
 //   evn, ev      : number of events published so far and the published payloads, in order
 //@ ghost evn int
 //@ ghost ev map[int]api.EventPayload
+//   dn, dh, dp   : synchronous event-handler invocations so far: handler and payload of each
+//   dsp          : number of go statements executed when the synchronous invocation happened
+//   spawnn, ...  : log of go statements (maintained by the verifier)
+//@ ghost dn int
+//@ ghost dh map[int]api.EventHandlerInterface
+//@ ghost dp map[int]api.EventPayload
+//@ ghost dsp map[int]int
+//@ ghost spawnn int
+//@ ghost spawnfn map[int]int
+// everything a Publish may change (it runs the core handlers synchronously)
+//@ modset PUBLISH = evn, ev, dn, dh, dp, dsp, world, Events.handlers
 
 // shared macros
 //@ define roleok(f, r) = f.Role() == model.RoleTypeSpecial || f.Role() == r
@@ -31,7 +42,7 @@ package spine
 //@   ensures[C15] async-count: spawnn == old(spawnn) + Acnt(len(S))
 //@   ensures[C15] async-each: forall j int :: 0 <= j && j < len(S) && isApp(old(S[j])) ==> spawnfn[old(spawnn) + Acnt(j)] == methodid("(github.com/enbility/spine-go/api.EventHandlerInterface).HandleEvent") && spawnarg(old(spawnn) + Acnt(j), 0, api.EventHandlerInterface) == old(S[j].Handler) && spawnarg(old(spawnn) + Acnt(j), 1, api.EventPayload) == payload
 //@   ensures[C15] locks-released: !held(r.mu) && !held(r.muHandle)
-//@   modifies evn, ev, dn, dh, dp, dsp, world, held, r.handlers
+//@   modifies @PUBLISH, held
 //@   loop 0 invariant o-snap: forall i int :: 0 <= i && i < len(S) ==> handler[i] == old(S[i])
 //@   loop 0 invariant o-len: len(handler) == len(S)
 //@   loop 0 invariant o-levels: len($s) == 2 && $s[0] == api.EventHandlerLevelCore && $s[1] == api.EventHandlerLevelApplication
@@ -71,7 +82,7 @@ package spine
 //@   ensures[C09] unchanged: result != nil ==> c.bindingEntries == L0
 //@   ensures[C09] event: result == nil ==> evn == old(evn) + 1 && ev[old(evn)].EventType == api.EventTypeBindingChange && ev[old(evn)].ChangeType == api.ElementChangeAdd && ev[old(evn)].Feature == CF && ev[old(evn)].LocalFeature == SF
 //@   ensures[C09] noevent: result != nil ==> evn == old(evn)
-//@   modifies c.bindingEntries, c.bindingNum, c.bindingEntries[len(c.bindingEntries)], evn, ev, world, held
+//@   modifies c.bindingEntries, c.bindingNum, c.bindingEntries[len(c.bindingEntries)], @PUBLISH, held
 
 //@ func (*BindingManager).RemoveBinding
 //@   requires c != nil && remoteDevice != nil && data.ClientAddress != nil && data.ServerAddress != nil
@@ -87,7 +98,7 @@ package spine
 //@   ensures[C09] unchanged: result != nil ==> c.bindingEntries == L0
 //@   ensures[C09] event: result == nil ==> evn == old(evn) + 1 && ev[old(evn)].EventType == api.EventTypeBindingChange && ev[old(evn)].ChangeType == api.ElementChangeRemove && ev[old(evn)].Feature == CF && ev[old(evn)].LocalFeature == SF
 //@   ensures[C09] noevent: result != nil ==> evn == old(evn)
-//@   modifies c.bindingEntries, evn, ev, world, held
+//@   modifies c.bindingEntries, @PUBLISH, held
 //@   loop 0 invariant acc: newBindingEntries == nil || freshPre(newBindingEntries)
 //@   loop 0 invariant frame: unchangedPre(*api.BindingEntry)
 //@   loop 0 invariant len: len(newBindingEntries) == Fcnt($k)
@@ -105,7 +116,7 @@ package spine
 //@   ensures[C10] nil-noop: remoteEntity == nil ==> c.bindingEntries == L0 && evn == old(evn)
 //@   ensures[C10] view: remoteEntity != nil ==> len(c.bindingEntries) == Fcnt(len(L0)) && forall j int :: 0 <= j && j < len(L0) && kept(L0[j]) ==> c.bindingEntries[Fcnt(j)] == old(L0[j])
 //@   ensures[C10] events: remoteEntity != nil ==> evn == old(evn) + (len(L0) - Fcnt(len(L0)))
-//@   modifies c.bindingEntries, evn, ev, world, held
+//@   modifies c.bindingEntries, @PUBLISH, held
 //@   loop 0 invariant acc: newBindingEntries == nil || freshPre(newBindingEntries)
 //@   loop 0 invariant frame: unchangedPre(*api.BindingEntry) && unchangedPre(api.BindingEntry) && unchangedPre(model.FeatureAddressType) && unchangedPre(model.EntityAddressType) && unchangedPre(api.EventPayload)
 //@   loop 0 invariant len: len(newBindingEntries) == Fcnt($k)
@@ -137,7 +148,7 @@ package spine
 //@   ensures[C08] unchanged: result != nil ==> c.subscriptionEntries == L0
 //@   ensures[C08] event: result == nil ==> evn == old(evn) + 1 && ev[old(evn)].EventType == api.EventTypeSubscriptionChange && ev[old(evn)].ChangeType == api.ElementChangeAdd && ev[old(evn)].Feature == CF && ev[old(evn)].LocalFeature == SF
 //@   ensures[C08] noevent: result != nil ==> evn == old(evn)
-//@   modifies c.subscriptionEntries, c.subscriptionNum, c.subscriptionEntries[len(c.subscriptionEntries)], evn, ev, world, held
+//@   modifies c.subscriptionEntries, c.subscriptionNum, c.subscriptionEntries[len(c.subscriptionEntries)], @PUBLISH, held
 //@   loop 0 invariant none-yet: forall j int :: 0 <= j && j < $k ==> !($s[j].ServerFeature == SF && $s[j].ClientFeature == CF)
 
 //@ func (*SubscriptionManager).RemoveSubscription
@@ -155,7 +166,7 @@ package spine
 //@   ensures[C08] unchanged: result != nil ==> c.subscriptionEntries == L0
 //@   ensures[C08] event: result == nil ==> evn == old(evn) + 1 && ev[old(evn)].EventType == api.EventTypeSubscriptionChange && ev[old(evn)].ChangeType == api.ElementChangeRemove && ev[old(evn)].Feature == CF && ev[old(evn)].LocalFeature == SF
 //@   ensures[C08] noevent: result != nil ==> evn == old(evn)
-//@   modifies c.subscriptionEntries, evn, ev, world, held
+//@   modifies c.subscriptionEntries, @PUBLISH, held
 //@   loop 0 invariant acc: newSubscriptionEntries == nil || freshPre(newSubscriptionEntries)
 //@   loop 0 invariant frame: unchangedPre(*api.SubscriptionEntry)
 //@   loop 0 invariant len: len(newSubscriptionEntries) == Fcnt($k)
@@ -169,7 +180,7 @@ package spine
 //@   ensures[C10] nil-noop: remoteEntity == nil ==> c.subscriptionEntries == L0 && evn == old(evn)
 //@   ensures[C10] view: remoteEntity != nil ==> len(c.subscriptionEntries) == Fcnt(len(L0)) && forall j int :: 0 <= j && j < len(L0) && kept(L0[j]) ==> c.subscriptionEntries[Fcnt(j)] == old(L0[j])
 //@   ensures[C10] events: remoteEntity != nil ==> evn == old(evn) + (len(L0) - Fcnt(len(L0)))
-//@   modifies c.subscriptionEntries, evn, ev, world, held
+//@   modifies c.subscriptionEntries, @PUBLISH, held
 //@   loop 0 invariant acc: newSubscriptionEntries == nil || freshPre(newSubscriptionEntries)
 //@   loop 0 invariant frame: unchangedPre(*api.SubscriptionEntry) && unchangedPre(api.SubscriptionEntry) && unchangedPre(model.FeatureAddressType) && unchangedPre(model.EntityAddressType) && unchangedPre(api.EventPayload)
 //@   loop 0 invariant len: len(newSubscriptionEntries) == Fcnt($k)
@@ -181,17 +192,11 @@ package spine
 //   dn, dh, dp   : synchronous handler invocations so far: handler and payload of each
 //   dsp          : number of go statements executed when the synchronous invocation happened
 //   spawnn, ...  : log of go statements (maintained by the verifier)
-//@ ghost dn int
-//@ ghost dh map[int]api.EventHandlerInterface
-//@ ghost dp map[int]api.EventPayload
-//@ ghost dsp map[int]int
-//@ ghost spawnn int
-//@ ghost spawnfn map[int]int
 
 // Assumed contract of an event handler invoked synchronously: it is logged; it may change the
 // world and (un)subscribe handlers, but cannot reach the private snapshot Publish iterates over.
 //@ iface api.EventHandlerInterface.HandleEvent
-//@   ensures dn == old(dn) + 1 && dh == store(old(dh), old(dn), self) && dp == store(old(dp), old(dn), payload) && dsp == store(old(dsp), old(dn), spawnn)
+//@   ensures dn == old(dn) + 1 && dh == store(old(dh), old(dn), self) && dp == store(old(dp), old(dn), p0) && dsp == store(old(dsp), old(dn), spawnn)
 //@   modifies dn, dh, dp, dsp, world, Events.handlers
 
 //@ func (*events).subscribe
